@@ -326,7 +326,9 @@ func (s *AdminOp) updateValidators(validators *agtypes.ValidatorSet, changedVali
 		case agtypes.ValidatorCmdRemoveNode:
 			_, removed := validators.Remove(address)
 			if !removed {
-				return fmt.Errorf("Failed to remove validator %X", address)
+				// e.g. two accepted requests in one block remove the same validator: nothing left to
+				// do (an error here makes the whole block fail on every replica)
+				log.Warn(fmt.Sprintf("validator %X is already removed", address))
 			}
 		default:
 			log.Warn("unsupported admin operation:" + string(vAttr.Cmd))
